@@ -2814,6 +2814,10 @@ class LinearOperator(object):
         # Pad the index with empty indices
         index = index + tuple(_noop_index for _ in range(ndimension - len(index)))
 
+        for dim, (idx, size) in enumerate(zip(index, self.shape)):
+            if isinstance(idx, int) and not -size <= idx < size:
+                raise IndexError(f"index {idx} is out of bounds for dimension {dim} with size {size}")
+
         # Negative entries of integer / tensor indices count from the end (as for torch.Tensor indexing)
         # (out-of-range entries are left alone so that they keep raising downstream)
         index = tuple(
